@@ -811,7 +811,7 @@ func r124(c *an.Ctx) {
 				"a caller-supplied "+what+" is invoked with lock set "+held.String()+" (entry: "+w.Why[fn]+"): a callback that touches the router deadlocks, and slow factories block every lookup")
 		})
 	}
-	if n < 3 {
+	if n < 2 { // at least the change callback and the factory (they may be funnelled through one helper each)
 		c.Unk(rule, "pkg/router|callback sites", 0, fmt.Sprintf("only %d callback/factory invocation sites found", n))
 	}
 	// Add
